@@ -97,6 +97,9 @@ func (alg *algorithm) GenerateIV() ([]byte, error) {
 
 func (alg *algorithm) Decrypt(cek, iv, aad, ciphertext, authTag []byte) (plaintext []byte, err error) {
 	// verify parameters
+	if len(cek) != alg.keyLen {
+		return nil, fmt.Errorf("agcm: the size of CEK must be %d bytes, but got: %d", alg.keyLen, len(cek))
+	}
 	if len(iv) != nonceSize {
 		return nil, fmt.Errorf("agcm: the size of IV must be %d bytes, but got: %d", nonceSize, len(iv))
 	}
